@@ -626,6 +626,7 @@ func ruleAdmit(p *Program, r *Result) {
 	}
 	ruleContainsUnconditional(p, r)
 	ruleBuildScopes(p, r)
+	ruleHasScope(p, r)
 	ruleAcceptRefusal(p, r)
 	r.floor("R-ADMIT", 10)
 }
@@ -1098,6 +1099,74 @@ func ruleAcceptRefusal(p *Program, r *Result) {
 				}
 			}
 		}
+		if !(good && clean) && sec != nil && hnd != nil {
+			// the lookup folded in from a helper that hands back a struct and an ok flag: the failure edges and the
+			// success edge meet in one block that branches on a phi of constants. Follow each failure edge with the
+			// branch it determines (path feasibility, not dominance): the connection loop must not be reachable.
+			var fail [][2]*ssa.BasicBlock
+			nTests := 0
+			addNilEdges := func(v ssa.Value, nilIsFail bool) {
+				found := false
+				for _, rf := range refsOf(v) {
+					bo, ok := rf.(*ssa.BinOp)
+					if !ok || (bo.Op != token.EQL && bo.Op != token.NEQ) || !(isNilConst(bo.X) || isNilConst(bo.Y)) {
+						continue
+					}
+					for _, r2 := range refsOf(bo) {
+						iff, ok := r2.(*ssa.If)
+						if !ok {
+							continue
+						}
+						nilSucc := iff.Block().Succs[0]
+						if bo.Op == token.NEQ {
+							nilSucc = iff.Block().Succs[1]
+						}
+						failSucc := nilSucc
+						if !nilIsFail {
+							failSucc = iff.Block().Succs[0]
+							if failSucc == nilSucc {
+								failSucc = iff.Block().Succs[1]
+							}
+						}
+						fail = append(fail, [2]*ssa.BasicBlock{iff.Block(), failSucc})
+						found = true
+					}
+				}
+				if found {
+					nTests++
+				}
+			}
+			addNilEdges(sec, true)
+			addNilEdges(hnd, true)
+			for _, rf := range refsOf(get) {
+				if e, ok := rf.(*ssa.Extract); ok && e.Index == 2 {
+					addNilEdges(e, false)
+				}
+			}
+			if nTests == 3 {
+				reach := threadedReach(fail)
+				if !reach[loopCall.Block()] && blockReach(get.Block(), nil)[loopCall.Block()] {
+					good, clean = true, true
+					closed = false
+					for b := range reach {
+						for _, in := range b.Instrs {
+							if c, ok := in.(ssa.CallInstruction); ok {
+								if cc := c.Common(); cc.IsInvoke() && isNetConn(cc.Value.Type()) {
+									switch cc.Method.Name() {
+									case "Close":
+										if _, isDefer := c.(*ssa.Defer); !isDefer {
+											closed = true
+										}
+									case "Write":
+										clean = false
+									}
+								}
+							}
+						}
+					}
+				}
+			}
+		}
 		r.cond(good && closed && clean, "R-ADMIT", key, p.Pos(get.Pos()),
 			"the connection is served only when the lookup returned a nil error, a non-nil secret and a non-nil handler; otherwise it is closed at once, nothing is written and the connection loop is not entered",
 			fmt.Sprintf("refusal is not 'close, write nothing, invoke nothing' (served only on complete lookup: %v, closed on failure: %v, no write/serve on failure: %v)", good, closed, clean))
@@ -1105,6 +1174,49 @@ func ruleAcceptRefusal(p *Program, r *Result) {
 }
 
 var _ = sort.Strings
+
+// threadedReach: blocks reachable from the given edges, where a block that branches on a phi of boolean constants
+// defined in that very block is left only through the successor the arriving edge determines.
+func threadedReach(edges [][2]*ssa.BasicBlock) map[*ssa.BasicBlock]bool {
+	type e2 struct{ from, to *ssa.BasicBlock }
+	seen := map[e2]bool{}
+	out := map[*ssa.BasicBlock]bool{}
+	var queue []e2
+	for _, e := range edges {
+		queue = append(queue, e2{e[0], e[1]})
+	}
+	for len(queue) > 0 {
+		e := queue[0]
+		queue = queue[1:]
+		if seen[e] {
+			continue
+		}
+		seen[e] = true
+		b := e.to
+		out[b] = true
+		succs := b.Succs
+		if iff, ok := b.Instrs[len(b.Instrs)-1].(*ssa.If); ok {
+			if ph, ok := iff.Cond.(*ssa.Phi); ok && ph.Block() == b {
+				for i, pr := range b.Preds {
+					if pr != e.from || i >= len(ph.Edges) {
+						continue
+					}
+					if c, ok := ph.Edges[i].(*ssa.Const); ok && c.Value != nil {
+						if c.Value.ExactString() == "true" {
+							succs = b.Succs[:1]
+						} else {
+							succs = b.Succs[1:2]
+						}
+					}
+				}
+			}
+		}
+		for _, s := range succs {
+			queue = append(queue, e2{b, s})
+		}
+	}
+	return out
+}
 
 // isAscendingIndex: v is the index of a loop that visits 0, 1, 2, ... in order: the induction variable of a
 // range loop (φ+1 with φ starting at -1) or of a counting loop (φ starting at a constant, stepped by +1).
